@@ -28,7 +28,7 @@ TECHNIQUE = ('Lean 4 theorems: frame theorem for stateful objects (entry method 
              'instantiated by kernel-decided coverage of the field tables regenerated from the Python source by a static analysis on every '
              'run; parser-object theorem (reset in finally => fresh answers after any history, tied to the LR/lexer model); sort-after-set '
              'theorem and pinned list of unsorted set iterations. The tables are validated against the running code (field scrambling, '
-             'deep snapshots); histories through shared parser/generator/compiler objects vs fresh ones; whole pipeline under several '
+             'deep snapshots); histories through shared parser/generator/compiler objects vs fresh ones (changing module editions, broken-then-intact sets, changing per-call options including a user template); compile() with the package\'s debug logging of every category on and off; whole pipeline under several '
              'PYTHONHASHSEED values in subprocesses')
 LEVEL_TEXT = ('Proved in Lean for histories of every length and content: an object whose fields satisfy the coverage condition answers every '
               'call as a fresh object would; the condition is decided by the kernel on the read/write/reset tables extracted from the source '
